@@ -218,6 +218,85 @@ def ir_pairs(pool, extra, rnd, thorough):
     return blocks, meta
 
 
+def monomial(n, memo):
+    """(coefficient, degree) of a node that is a monomial c * x^k in the first parameter, built from
+    multiplications, divisions and value-preserving casts; None otherwise."""
+    if id(n) in memo:
+        return memo[id(n)]
+    r = None
+    if n.op == "param":
+        r = (Fraction(1), 1) if n.attr == 0 else None
+    elif n.op == "const":
+        v = n.cval()
+        if isinstance(v, Fraction):
+            r = (v, 0)
+        elif n.ty in dag.INT_BITS:
+            r = (Fraction(dag.as_signed(v, n.ty)), 0)
+    elif n.op in ("fmul", "mul"):
+        a, b = monomial(n.args[0], memo), monomial(n.args[1], memo)
+        if a and b:
+            r = (a[0] * b[0], a[1] + b[1])
+    elif n.op in ("fdiv", "sdiv", "udiv"):
+        a, b = monomial(n.args[0], memo), monomial(n.args[1], memo)
+        if a and b and b[0] != 0:
+            r = (a[0] / b[0], a[1] - b[1])
+    elif n.op in ("sext", "zext", "trunc", "fpext", "fptrunc"):
+        r = monomial(n.args[0], memo)
+    memo[id(n)] = r
+    return r
+
+
+def int_pow_values(ctx, ipre, rnd):
+    """int_pow<N>(q) holds x^N: the recursive helper is unfolded on the constant exponent, the
+    result must be the monomial 1 * x^N, and no intermediate may be a power of x beyond the result's
+    (|k| <= |N|): an intermediate of higher degree overflows (or underflows to 0) for values whose
+    N-th power is still representable, which no way of 'applying the raw operator' does."""
+    reps = [("double", range(-4, 5)), ("float", range(-4, 5)), ("long double", ()), ("int32_t", range(0, 5)), ("int64_t", range(0, 5)),
+            ("uint8_t", range(0, 5)), ("int16_t", range(0, 5)), ("uint64_t", range(0, 5))]
+    blocks, meta = [], {}
+    k = 0
+    for r, exps in reps:
+        for e in exps:
+            for u in ("au::Meters", "decltype(au::Meters{} / au::Seconds{})"):
+                blocks.append((k, 'extern "C" auto ipw_%d(%s x) { auto r = au::int_pow<%d>(au::make_quantity<%s>(x)); return r.in(decltype(r)::unit); }' % (k, r, e, u)))
+                meta[k] = (r, e, u)
+                k += 1
+    pre = ipre + '#include "au/units/meters.hh"\n#include "au/units/seconds.hh"\n'
+    mod, alive, dropped = irbuild.build_blocks(ctx, pre, blocks, "c14pow", only=lambda n: n.startswith("ipw_") or "int_pow_impl" in n)
+    for kk, msg in dropped.items():
+        ctx.violation("int_pow:compile|%s|%d" % meta[kk][:2], "int_pow<%d> on rep %s does not compile: %s" % (meta[kk][1], meta[kk][0], msg))
+    n = 0
+    for kk in alive:
+        r, e, u = meta[kk]
+        key = "int_pow:%s|%d|%s" % (r, e, u)
+        n += 1
+        d = dag.build(mod.funcs["ipw_%d" % kk], mod, unfold=12)
+        memo = {}
+        m = monomial(d.ret, memo)
+        if m != (Fraction(1), e):
+            ctx.violation(key + "|value", "int_pow<%d> of a %s quantity is not x^%d of the stored value: %s" % (e, r, e, "c=%s, degree %s" % m if m else "not a power of x"), d.ret.pretty())
+            continue
+        worst = None
+        seen = set()
+
+        def walk(x):
+            nonlocal worst
+            if id(x) in seen:
+                return
+            seen.add(id(x))
+            mm = monomial(x, memo)
+            if mm and abs(mm[1]) > abs(e) and (worst is None or abs(mm[1]) > abs(worst[1])):
+                worst = (x, mm[1])
+            for a in x.args:
+                walk(a)
+        walk(d.ret)
+        if worst is not None:
+            ctx.violation(key + "|intermediate", "int_pow<%d> of a %s quantity forms x^%d on the way to x^%d: that intermediate overflows / underflows for values whose power %d is representable"
+                          % (e, r, worst[1], e, e), "intermediate: %s\nresult: %s" % (worst[0].pretty(), d.ret.pretty()))
+    ctx.require(n >= 80, "only %d int_pow wrappers analysed" % n)
+    return n
+
+
 def body(ctx):
     rnd = random.Random(ctx.seed)
     configs = cxx.configs_for(ctx.tier)
@@ -265,12 +344,14 @@ def body(ctx):
     for k, (m, msg) in dropped_all.items():
         ctx.violation("value:compile|%s|%s|%s,%s" % (m[0].expr, m[1].expr, m[2], m[3]), "product / quotient wrappers do not compile: %s" % msg)
     ctx.require(nob[0] >= 100, "only %d value wrappers analysed" % nob[0])
+    npow = int_pow_values(ctx, ipre, rnd)
     ctx.coverage.update(dict(
         evaluations=len(items) * len(configs) + nob[0], distinct_nontrivial=len(items) + nob[0],
-        rule="W item per (unit pair, rep pair) asserting result type, collapse-to-raw-number iff the model product/quotient is unitless, unit exponents, rep and a constant value; per (unit, rep) for int_pow<-4..4>, sqrt, cbrt, 1/q; witness pairs for the integer-division guard and as_raw_number; IR wrapper pair per (operation, unit pair, rep pair) compared by DAG equality with the raw operator",
+        rule="W item per (unit pair, rep pair) asserting result type, collapse-to-raw-number iff the model product/quotient is unitless, unit exponents, rep and a constant value; per (unit, rep) for int_pow<-4..4>, sqrt, cbrt, 1/q; witness pairs for the integer-division guard and as_raw_number; IR wrapper pair per (operation, unit pair, rep pair) compared by DAG equality with the raw operator; int_pow<N> per (rep, N): recursive helper unfolded on the constant exponent, result is the monomial x^N and no intermediate has higher degree",
         samples=[dict(key=items[0].key), dict(key=items[-1].key, code=items[-1].code)],
         exhaustive=False, w_items=len(items), w_mismatches=nbad, ir_pairs=nob[0], ir_equal=nob[1], configs=[c.name for c in configs], engine_stats=stats,
-        not_decided="value of int_pow (recursive helper is not lowered to straight-line IR): only its unit and rep are decided"))
+        int_pow_wrappers=npow,
+        not_decided="rounding of int_pow beyond 'it is the power x^N formed from powers of no higher degree'"))
     ctx.assumptions += ["unblock_int_div path: only acceptance, value and unit are checked (it returns a Quantity of the unitless unit rather than a raw number)"]
 
 
